@@ -1,5 +1,283 @@
 package props
 
-import "verifharness/runner"
+import (
+	"fmt"
+	"math/rand"
+	"strings"
+	"sync"
+	"sync/atomic"
+	"time"
 
-func c05sessionCase(c *runner.Ctx, i int) {}
+	"github.com/gocql/gocql"
+
+	"verifharness/cqlref"
+	"verifharness/fakenode"
+	"verifharness/runner"
+)
+
+// C05, session phase: hostile and unexpected frames delivered to real connections. A panic on
+// one of the driver's own goroutines kills the worker process, which the parent reports as a
+// violation with the top gocql frame; a panic in a caller's goroutine is recovered and reported here.
+
+var c05replyKinds = 12 // the kinds of c05base
+
+type c05script struct {
+	mu      sync.Mutex
+	r       *rand.Rand
+	version int
+	// what to answer
+	onOps   map[byte]bool // request opcodes that get the scripted answer
+	system  bool          // also answer the driver's own system-table queries that way
+	mutated bool          // mutate the frame as well
+	kind    int
+	left    int32 // how many scripted answers are still to be given
+	sent    []string
+}
+
+func (s *c05script) frameFor(version, stream int) (frame []byte, desc string) {
+	s.mu.Lock()
+	defer s.mu.Unlock()
+	_, fr, fields, name, _ := c05base(s.r, s.kind, version)
+	desc = name
+	if s.mutated {
+		m, class, detail := c05mutate(s.r, version, fr, fields, s.r.Intn(1000))
+		if class != "" {
+			fr, desc = m, name+" ("+detail+")"
+		}
+	}
+	if len(fr) >= cqlref.HeaderSize(version) && !strings.HasPrefix(name, "event") {
+		c05setStream(fr, version, stream)
+	}
+	s.sent = append(s.sent, desc)
+	return fr, desc
+}
+
+func (s *c05script) take() bool {
+	return atomic.AddInt32(&s.left, -1) >= 0
+}
+
+func c05call(c *runner.Ctx, name string, fn func()) (pan interface{}) {
+	c.Guard(name, func() {
+		defer func() {
+			if r := recover(); r != nil {
+				pan = fmt.Sprintf("%v\n%s", r, c05stack())
+			}
+		}()
+		fn()
+	})
+	return
+}
+
+func c05sessionCase(c *runner.Ctx, i int) {
+	r := c.Rng
+	version := 1 + i%5
+	mode := (i / 5) % 4
+	cl := fakenode.NewCluster(1 + r.Intn(2))
+	sc := &c05script{r: rand.New(rand.NewSource(r.Int63())), version: version, kind: r.Intn(c05replyKinds), onOps: map[byte]bool{}}
+	cfg := newCfg(cl, version)
+	cfg.Timeout = 300 * time.Millisecond
+	cfg.ConnectTimeout = 300 * time.Millisecond
+	cfg.NumConns = 1 + r.Intn(2)
+	useAuth := r.Intn(3) == 0
+	if useAuth {
+		for _, n := range cl.Nodes {
+			n.AuthClass = "org.apache.cassandra.auth.PasswordAuthenticator"
+		}
+		cfg.Authenticator = gocql.PasswordAuthenticator{Username: "u", Password: "p"}
+	}
+	c.Add("sessions", 1)
+	key := ""
+	wit := func() map[string]interface{} {
+		sc.mu.Lock()
+		defer sc.mu.Unlock()
+		return map[string]interface{}{"case": key, "scripted_answers": append([]string{}, sc.sent...)}
+	}
+	report := func(where string, pan interface{}) {
+		c.Violation("C05:session:"+where+":panic", fmt.Sprintf("%s panicked in the caller's goroutine: %v (%s)", where, pan, key), wit())
+	}
+	answer := func(conn *fakenode.ServerConn, req *fakenode.Req) {
+		fr, _ := sc.frameFor(conn.Version, req.Header.Stream)
+		conn.WriteReply(req, fr)
+	}
+	switch mode {
+	case 0:
+		// an unexpected (well-formed, or mutated) frame at one step of the handshake
+		step := []byte{cqlref.OpOptions, cqlref.OpStartup, cqlref.OpAuthResponse, cqlref.OpRegister}[r.Intn(4)]
+		if step == cqlref.OpAuthResponse && !useAuth {
+			step = cqlref.OpStartup
+		}
+		sc.mutated = r.Intn(4) == 0
+		connIdx := r.Intn(3)
+		atomic.StoreInt32(&sc.left, int32(1+r.Intn(2)))
+		for _, n := range cl.Nodes {
+			n.OnHandshake = func(conn *fakenode.ServerConn, op byte) bool {
+				if op != step || (connIdx > 0 && conn.Index < connIdx) || !sc.take() {
+					return false
+				}
+				reqs := conn.AllRequests()
+				answer(conn, reqs[len(reqs)-1])
+				return true
+			}
+		}
+		key = fmt.Sprintf("v%d handshake step %#x on connections >= %d answered with kind %d (mutated=%v, auth=%v)", version, step, connIdx, sc.kind, sc.mutated, useAuth)
+		c.Add("unexpected_in_handshake", 1)
+		c.Eval(runner.H("c05sess-hs", version, step, sc.kind, sc.mutated, useAuth), true)
+		var sess *gocql.Session
+		if pan := c05call(c, "CreateSession", func() { sess, _ = cfg.CreateSession() }); pan != nil {
+			report("CreateSession", pan)
+		}
+		if sess != nil {
+			for k := 0; k < 3; k++ {
+				if pan := c05call(c, "Query.Exec", func() { sess.Query(fmt.Sprintf("LIST q%d", k)).Exec() }); pan != nil {
+					report("Query.Exec", pan)
+				}
+			}
+			time.Sleep(time.Duration(r.Intn(20)) * time.Millisecond)
+			c05call(c, "Session.Close", sess.Close)
+		}
+	default:
+		handler := func(conn *fakenode.ServerConn, req *fakenode.Req) {
+			if sc.onOps[req.Header.Op] && sc.take() {
+				answer(conn, req)
+				return
+			}
+			switch req.Header.Op {
+			case cqlref.OpPrepare:
+				ps := &cqlref.PreparedSpec{ID: []byte("P:" + req.Statement),
+					Bind:   cqlref.Metadata{Global: true, ColCount: 1, Columns: []cqlref.Column{{Keyspace: "ks", Table: "t", Name: "k", Type: &cqlref.Type{ID: cqlref.TVarchar}}}},
+					Result: cqlref.Metadata{Global: true, ColCount: 1, Columns: []cqlref.Column{{Keyspace: "ks", Table: "t", Name: "v", Type: &cqlref.Type{ID: cqlref.TInt}}}}}
+				conn.Reply(req, cqlref.OpResult, nil, cqlref.BodyPrepared(conn.Version, ps))
+			default:
+				conn.ReplyVoid(req)
+			}
+		}
+		for _, n := range cl.Nodes {
+			n.Handler = handler
+			n.SystemIntercept = func(conn *fakenode.ServerConn, req *fakenode.Req) bool {
+				if sc.system && conn.Ready() && sc.take() {
+					answer(conn, req)
+					return true
+				}
+				return false
+			}
+		}
+		var sess *gocql.Session
+		var err error
+		c.Guard("CreateSession", func() { sess, err = cfg.CreateSession() })
+		if err != nil {
+			c.Inconclusive("c05-session", err.Error())
+			return
+		}
+		sc.mutated = mode == 2 || (mode == 1 && r.Intn(3) == 0)
+		switch mode {
+		case 1, 2:
+			ops := [][]byte{{cqlref.OpQuery}, {cqlref.OpPrepare}, {cqlref.OpExecute}, {cqlref.OpBatch}, {cqlref.OpQuery, cqlref.OpPrepare, cqlref.OpExecute, cqlref.OpBatch}}[r.Intn(5)]
+			for _, o := range ops {
+				sc.onOps[o] = true
+			}
+			sc.system = r.Intn(4) == 0
+			if mode == 2 {
+				c.Add("mutated_replies", 1)
+			} else {
+				c.Add("unexpected_reply_to_request", 1)
+			}
+			key = fmt.Sprintf("v%d requests %v (system queries: %v) answered with kind %d (mutated=%v)", version, ops, sc.system, sc.kind, sc.mutated)
+			c.Eval(runner.H("c05sess-req", version, fmt.Sprint(ops), sc.system, sc.kind, sc.mutated), true)
+			for round := 0; round < 6; round++ {
+				atomic.StoreInt32(&sc.left, 1)
+				sc.mu.Lock()
+				sc.kind = r.Intn(c05replyKinds)
+				sc.mu.Unlock()
+				what := r.Intn(5)
+				if version == 1 && what == 3 {
+					what = 0
+				}
+				switch what {
+				case 0:
+					if pan := c05call(c, "Query.Exec", func() { sess.Query(fmt.Sprintf("LIST r%d", round)).Exec() }); pan != nil {
+						report("Query.Exec", pan)
+					}
+				case 1:
+					if pan := c05call(c, "Iter.Scan", func() {
+						it := sess.Query(fmt.Sprintf("SELECT v FROM ks.t WHERE k = ? /* %d %d */", i, round), "key").Iter()
+						c05drain(it, round)
+					}); pan != nil {
+						report("Iter", pan)
+					}
+				case 2:
+					if pan := c05call(c, "Iter.MapScan", func() {
+						it := sess.Query(fmt.Sprintf("LIST m%d", round)).Iter()
+						if n, p := c05drain(it, 1+round); p != nil {
+							panic(fmt.Sprintf("after %d rows: %v", n, p))
+						}
+					}); pan != nil {
+						report("Iter", pan)
+					}
+				case 3:
+					if pan := c05call(c, "ExecuteBatch", func() {
+						b := sess.NewBatch(gocql.LoggedBatch)
+						b.Query(fmt.Sprintf("INSERT INTO ks.t (k, v) VALUES (?, ?) /* %d */", round), "k", 1)
+						b.Query("LIST plain")
+						sess.ExecuteBatch(b)
+					}); pan != nil {
+						report("ExecuteBatch", pan)
+					}
+				default:
+					if sc.system {
+						if pan := c05call(c, "refreshRing", func() { gocql.VerifRefreshRing(sess) }); pan != nil {
+							report("refreshRing", pan)
+						}
+					}
+					if pan := c05call(c, "Query.Scan", func() {
+						var x int
+						sess.Query(fmt.Sprintf("LIST s%d", round)).Scan(&x)
+					}); pan != nil {
+						report("Query.Scan", pan)
+					}
+				}
+			}
+		default:
+			// hostile EVENT frames on the control connection
+			c.Add("hostile_events", 1)
+			key = fmt.Sprintf("v%d hostile events", version)
+			c.Eval(runner.H("c05sess-ev", version, i), true)
+			for round := 0; round < 8; round++ {
+				ctl := cl.ControlConn()
+				if ctl == nil {
+					time.Sleep(20 * time.Millisecond)
+					continue
+				}
+				sc.mu.Lock()
+				sc.kind = []int{6, 7, 7, 7}[r.Intn(4)] // event kinds of c05base (6 yields a result or an event)
+				sc.mutated = r.Intn(5) != 0
+				sc.mu.Unlock()
+				fr, desc := sc.frameFor(ctl.Version, -1)
+				if len(fr) >= cqlref.HeaderSize(ctl.Version) {
+					c05setStream(fr, ctl.Version, -1)
+					if ctl.Version < 3 {
+						fr[3] = cqlref.OpEvent
+					} else {
+						fr[4] = cqlref.OpEvent
+					}
+				}
+				_ = desc
+				ctl.WriteRaw(fr)
+				if r.Intn(3) == 0 {
+					// an unknown event type
+					w := cqlref.BodyString([]string{"KEYSPACE_CHANGE", "", "status_change", "TOPOLOGY_CHANGE\x00"}[r.Intn(4)])
+					f2, _ := cqlref.BuildFrame(ctl.Version, -1, cqlref.OpEvent, nil, w, nil)
+					ctl.WriteRaw(f2)
+				}
+				if pan := c05call(c, "Query.Exec", func() { sess.Query(fmt.Sprintf("LIST e%d", round)).Exec() }); pan != nil {
+					report("Query.Exec", pan)
+				}
+				time.Sleep(time.Duration(r.Intn(15)) * time.Millisecond)
+			}
+		}
+		time.Sleep(time.Duration(r.Intn(30)) * time.Millisecond)
+		c05call(c, "Session.Close", sess.Close)
+	}
+	if c.WantSample() {
+		c.Sample(wit())
+	}
+}
